@@ -637,6 +637,8 @@ def c06_bounds(lv):
 
 
 def run(chk, prog, tier):
+  from rules import c01 as _c01
+  _c01.rule_shared_state(chk, prog, rule='C13.6-coordinate-arrays-never-updated-in-place')
   rule_validation(chk, prog)
   rule_level_quantities(chk, prog)
   rule_integrals(chk, prog)
